@@ -320,3 +320,71 @@ Example C04_pruning_v0_refuted :
   stream ex_g [ex_fd] [((1090000,7),0); ((max64,max64),0); ((0,0),0)]
     = SOk [((1090000,7), Some (2,20)); ((max64,max64), None); ((0,0), None)].
 Proof. repeat split; vm_compute; reflexivity. Qed.
+
+(* ------------------------------------------------------------------ generated definitions (Gen.v)
+   Gen.v is regenerated from the Go sources on every run by harness/cmd/go2coq (spec: props/C04/gen.json).
+   The theorems below tie the GENERATED definitions to the hand-written model functions the theorems above
+   are about: a change of one of these Go functions changes Gen.v and the corresponding theorem stops
+   compiling. (Z <-> N: the model is over N, the generated definitions over Z.) *)
+From Coq Require Import ZArith.
+From VLib Require GoSem.
+From C04 Require Import Gen ProofsGen.
+Open Scope N_scope.   (* Gen.v opens Z_scope *)
+
+(* seq.LessOrEqual / seq.Less as generated = id_leq / id_less of the model (C04_lessorequal_shortcuts,
+   C04_fraction_lookup, C04_fetch_exact depend on them) *)
+Theorem C04_gen_LessOrEqual_refines : forall a b : id, go_seq_LessOrEqual (zid a) (zid b) = id_leq a b.
+Proof. exact gen_LessOrEqual_refines. Qed.
+Print Assumptions C04_gen_LessOrEqual_refines.
+
+Theorem C04_gen_Less_refines : forall a b : id, go_seq_Less (zid a) (zid b) = id_less a b.
+Proof. exact gen_Less_refines. Qed.
+Print Assumptions C04_gen_Less_refines.
+
+(* seq.PackDocPos as generated = pack_pos (including the panic for offsets above 30 bits), for every uint32
+   block index and uint64 offset *)
+Theorem C04_gen_PackDocPos_refines : forall b off, b < two32 -> off < two64 ->
+  go_seq_PackDocPos (Z.of_N b) (Z.of_N off) = zres (pack_pos b off).
+Proof. exact gen_PackDocPos_refines. Qed.
+Print Assumptions C04_gen_PackDocPos_refines.
+
+(* DocPos.Unpack as generated = unpack_pos (including the wrap of pos-- at 0), for every uint64 position *)
+Theorem C04_gen_Unpack_refines : forall p, p < two64 ->
+  go_seq_DocPos_Unpack (Z.of_N p) = (Z.of_N (fst (unpack_pos p)), Z.of_N (snd (unpack_pos p))).
+Proof. exact gen_Unpack_refines. Qed.
+Print Assumptions C04_gen_Unpack_refines.
+
+(* C04_docpos_roundtrip directly over the GENERATED PackDocPos / Unpack *)
+Theorem C04_docpos_roundtrip_gen : forall b off, (0 <= b < 4294967296)%Z -> (0 <= off <= 1073741823)%Z ->
+  exists p, go_seq_PackDocPos b off = GoSem.Val p /\ go_seq_DocPos_Unpack p = (b, off) /\
+            p <> 0%Z /\ p <> 18446744073709551615%Z.
+Proof. exact docpos_roundtrip_gen. Qed.
+Print Assumptions C04_docpos_roundtrip_gen.
+
+(* docsStream.calcChunkSize as generated = calc_chunk, whenever the byte sum of the batch, MaxFetchSizeBytes
+   and the previous chunk size fit int64 (no wrap-around) *)
+Theorem C04_gen_calcChunkSize_refines : forall g d docs prev,
+  (Z.of_N (sum_len docs) < 9223372036854775808)%Z -> (Z.of_N (max_fetch g) < 9223372036854775808)%Z ->
+  (Z.of_N prev < 9223372036854775808)%Z ->
+  go_storeapi_docsStream_calcChunkSize (Z.of_N (max_fetch g)) d (zlens docs) (Z.of_N prev)
+  = GoSem.Val (Z.of_N (calc_chunk g docs prev)).
+Proof. exact gen_calcChunkSize_refines. Qed.
+Print Assumptions C04_gen_calcChunkSize_refines.
+
+(* C04_chunk_size_pos directly over the GENERATED calcChunkSize: on every input in range it neither panics
+   (integer divide by zero) nor returns a chunk size below 1 *)
+Theorem C04_chunk_size_pos_gen : forall maxFetch d docs prev,
+  (0 <= maxFetch < 9223372036854775808)%Z -> (1 <= prev < 9223372036854775808)%Z ->
+  Forall (fun x => (0 <= x)%Z) docs -> (zsum docs < 9223372036854775808)%Z ->
+  exists c, go_storeapi_docsStream_calcChunkSize maxFetch d docs prev = GoSem.Val c /\ (1 <= c)%Z.
+Proof. exact chunk_size_pos_gen. Qed.
+Print Assumptions C04_chunk_size_pos_gen.
+
+(* non-vacuity: the ranges are inhabited and the generated functions compute *)
+Example C04_gen_witness :
+  go_seq_PackDocPos 3 5 = GoSem.Val 3221225478%Z /\ go_seq_DocPos_Unpack 3221225478 = (3, 5)%Z /\
+  go_seq_PackDocPos 0 1073741824 = GoSem.Panic /\
+  go_storeapi_docsStream_calcChunkSize 4194304 (mk_go_docsStream 3) [0; 10; 0]%Z 1000 = GoSem.Val 1398101%Z /\
+  go_storeapi_docsStream_calcChunkSize 4194304 (mk_go_docsStream 3) [0; 1; 0]%Z 1000 = GoSem.Val 4194304%Z /\
+  go_seq_Less (zid (5, 1)) (zid (5, 2)) = true /\ go_seq_LessOrEqual (zid (6, 0)) (zid (5, 9)) = false.
+Proof. vm_compute. repeat split; reflexivity. Qed.
